@@ -36,7 +36,53 @@ func (w *World) execBody(fr *Frame, st0 *State) (*State, []*Val) {
 	fr.loops = li
 	incoming := map[*ssa.BasicBlock][]inEdge{}
 	incoming[fn.Blocks[0]] = []inEdge{{nil, st0}}
+	w.runBlocks(fr, incoming, nil)
+	if len(fr.returns) == 0 {
+		return nil, nil
+	}
+	if len(fr.returns) == 1 {
+		return fr.returns[0].st, fr.returns[0].vals
+	}
+	var sts []*State
+	var conds []Term
+	for _, r := range fr.returns {
+		sts = append(sts, r.st)
+		conds = append(conds, r.st.cond)
+	}
+	out := w.mergeStates(fn.Name()+".exit", sts)
+	n := len(fr.returns[0].vals)
+	var res []*Val
+	for i := 0; i < n; i++ {
+		var vals []Term
+		for _, r := range fr.returns {
+			if r.vals[i].T.S == "" {
+				unsupported("address-only result in %s", fn.Name())
+			}
+			vals = append(vals, r.vals[i].T)
+		}
+		res = append(res, &Val{T: w.sc.define(fn.Name()+".result", iteChain(conds, vals)), Typ: fr.returns[0].vals[i].Typ})
+	}
+	return out, res
+}
+
+// region restricts block execution to the body of one loop (used to execute
+// a loop body as a state transformer for the determinism check).
+type region struct {
+	header     *ssa.BasicBlock
+	in         map[*ssa.BasicBlock]bool
+	backStates []*State
+	escaped    int
+}
+
+// runBlocks executes the blocks of fr.fn in topological order (back edges
+// cut) from the given incoming states.
+func (w *World) runBlocks(fr *Frame, incoming map[*ssa.BasicBlock][]inEdge, rg *region) {
+	fn := fr.fn
+	li := fr.loops
 	for _, b := range li.order {
+		if rg != nil && !rg.in[b] {
+			continue
+		}
 		ins := incoming[b]
 		if len(ins) == 0 {
 			continue
@@ -78,7 +124,14 @@ func (w *World) execBody(fr *Frame, st0 *State) (*State, []*Val) {
 			}
 		}
 		if k := li.isHeader[b]; k > 0 {
-			w.loopHead(fr, st, b, k)
+			switch {
+			case rg != nil && b == rg.header:
+				// the region's own loop: executing one iteration
+			case rg != nil:
+				unsupported("nested loop inside a loop declared deterministic in %s", fn.Name())
+			default:
+				w.loopHead(fr, st, b, k)
+			}
 		}
 		for _, instr := range b.Instrs {
 			switch t := instr.(type) {
@@ -89,10 +142,10 @@ func (w *World) execBody(fr *Frame, st0 *State) (*State, []*Val) {
 				thenSt, elseSt := st.clone(), st.clone()
 				thenSt.cond = w.sc.define("pc", and(st.cond, c))
 				elseSt.cond = w.sc.define("pc", and(st.cond, not(c)))
-				w.pushEdge(fr, incoming, b, b.Succs[0], thenSt)
-				w.pushEdge(fr, incoming, b, b.Succs[1], elseSt)
+				w.pushEdge(fr, incoming, b, b.Succs[0], thenSt, rg)
+				w.pushEdge(fr, incoming, b, b.Succs[1], elseSt, rg)
 			case *ssa.Jump:
-				w.pushEdge(fr, incoming, b, b.Succs[0], st)
+				w.pushEdge(fr, incoming, b, b.Succs[0], st, rg)
 			case *ssa.Return:
 				var vals []*Val
 				for _, r := range t.Results {
@@ -115,32 +168,6 @@ func (w *World) execBody(fr *Frame, st0 *State) (*State, []*Val) {
 			}
 		}
 	}
-	if len(fr.returns) == 0 {
-		return nil, nil
-	}
-	if len(fr.returns) == 1 {
-		return fr.returns[0].st, fr.returns[0].vals
-	}
-	var sts []*State
-	var conds []Term
-	for _, r := range fr.returns {
-		sts = append(sts, r.st)
-		conds = append(conds, r.st.cond)
-	}
-	out := w.mergeStates(fn.Name()+".exit", sts)
-	n := len(fr.returns[0].vals)
-	var res []*Val
-	for i := 0; i < n; i++ {
-		var vals []Term
-		for _, r := range fr.returns {
-			if r.vals[i].T.S == "" {
-				unsupported("address-only result in %s", fn.Name())
-			}
-			vals = append(vals, r.vals[i].T)
-		}
-		res = append(res, &Val{T: w.sc.define(fn.Name()+".result", iteChain(conds, vals)), Typ: fr.returns[0].vals[i].Typ})
-	}
-	return out, res
 }
 
 func predIndex(b, from *ssa.BasicBlock) int {
@@ -152,7 +179,20 @@ func predIndex(b, from *ssa.BasicBlock) int {
 	return -1
 }
 
-func (w *World) pushEdge(fr *Frame, incoming map[*ssa.BasicBlock][]inEdge, from, to *ssa.BasicBlock, st *State) {
+func (w *World) pushEdge(fr *Frame, incoming map[*ssa.BasicBlock][]inEdge, from, to *ssa.BasicBlock, st *State, rg *region) {
+	if st.cond.S == "false" {
+		return
+	}
+	if rg != nil {
+		if to == rg.header && fr.loops.backEdge[[2]*ssa.BasicBlock{from, to}] {
+			rg.backStates = append(rg.backStates, st)
+			return
+		}
+		if !rg.in[to] {
+			rg.escaped++
+			return
+		}
+	}
 	if fr.loops.backEdge[[2]*ssa.BasicBlock{from, to}] {
 		k := fr.loops.isHeader[to]
 		w.loopStep(fr, st, to, k)
@@ -249,6 +289,121 @@ func (w *World) loopHead(fr *Frame, st *State, h *ssa.BasicBlock, k int) {
 		w.sc.assume(implies(st.cond, w.evalBool(env, inv.Expr)))
 		w.noteQuantFacts(st.cond, env, inv.Expr)
 	}
+	if ls.Deterministic && fr.top {
+		w.loopDeterminism(fr, st, h, k, ls, cells, keys)
+	} else if fr.top && fr.contract != nil && fr.contract.Opts["maprange"] == "deterministic" {
+		// every range over a map in this function must be order independent
+		for _, ins := range h.Instrs {
+			if n, ok := ins.(*ssa.Next); ok {
+				if rg, ok := n.Iter.(*ssa.Range); ok {
+					if _, isMap := rg.X.Type().Underlying().(*types.Map); isMap {
+						w.loopDeterminism(fr, st, h, k, &LoopSpec{Deterministic: true, DetStar: true}, cells, keys)
+					}
+				}
+			}
+		}
+	}
+}
+
+// loopDeterminism generates the commutativity obligation of a range-over-map
+// loop: from an arbitrary loop state, running the body for two distinct keys
+// in either order leaves every location the loop writes with the same value.
+func (w *World) loopDeterminism(fr *Frame, st *State, h *ssa.BasicBlock, k int, ls *LoopSpec, cells []cellID, keys []string) {
+	var next *ssa.Next
+	for _, ins := range h.Instrs {
+		if n, ok := ins.(*ssa.Next); ok {
+			next = n
+		}
+	}
+	props := ls.DetProps
+	if len(props) == 0 {
+		props = fr.contract.Props
+	}
+	label := fmt.Sprintf("loop%d.deterministic", k)
+	rgI, _ := func() (*ssa.Range, bool) {
+		if next == nil {
+			return nil, false
+		}
+		r, ok := next.Iter.(*ssa.Range)
+		return r, ok
+	}()
+	if next == nil || rgI == nil || w.ranges[rgI] == nil {
+		o := w.oblige("loop.det", label, st.cond, tFalse, ls.DetStar, props)
+		o.Result = &SolverResult{Status: "not-a-map-range", Output: "the loop declared deterministic is not a range over a map"}
+		return
+	}
+	rs := w.ranges[rgI]
+	ks, vs := w.sortOf(rs.mapT.Key()), w.sortOf(rs.mapT.Elem())
+	dk, vk := w.mapKeys(ks, vs)
+	k1, k2 := w.sc.fresh("det.k1", ks), w.sc.fresh("det.k2", ks)
+	dom := sel(w.hget(st, dk), rs.m)
+	pre := and(not(eq(k1, k2)), sel(dom, k1), sel(dom, k2), not(eq(rs.m, intLit(0))))
+	inLoop := map[*ssa.BasicBlock]bool{}
+	for _, b := range fr.loops.body[h] {
+		inLoop[b] = true
+	}
+	tt := next.Type().(*types.Tuple)
+	runOnce := func(s0 *State, key Term) *State {
+		val := sel(sel(w.hget(s0, vk), rs.m), key)
+		w.forcedNext = map[*ssa.Next]*Val{next: {Typ: next.Type(), Tuple: []*Val{{T: tTrue, Typ: types.Typ[types.Bool]}, {T: key, Typ: tt.At(1).Type()}, {T: w.sc.define("det.val", val), Typ: tt.At(2).Type()}}}}
+		defer func() { w.forcedNext = nil }()
+		rg := &region{header: h, in: inLoop}
+		incoming := map[*ssa.BasicBlock][]inEdge{h: {{nil, s0.clone()}}}
+		nret := len(fr.returns)
+		w.runBlocks(fr, incoming, rg)
+		if len(fr.returns) != nret || rg.escaped > 0 {
+			fr.returns = fr.returns[:nret]
+			unsupported("loop %d of %s is declared deterministic but can leave the loop from its body (break/return)", k, fr.fn.Name())
+		}
+		if len(rg.backStates) == 0 {
+			unsupported("loop %d of %s: no path reaches the next iteration", k, fr.fn.Name())
+		}
+		out := w.mergeStates(fmt.Sprintf("%s.det%d", fr.fn.Name(), k), rg.backStates)
+		out.cond = s0.cond
+		return out
+	}
+	w.muted++
+	saved := map[ssa.Value]*Val{}
+	for v, x := range fr.vals {
+		saved[v] = x
+	}
+	s12 := runOnce(runOnce(st, k1), k2)
+	s21 := runOnce(runOnce(st, k2), k1)
+	fr.vals = saved
+	w.muted--
+	var eqs []Term
+	for _, c := range cells {
+		a, ok1 := s12.cells[c]
+		b, ok2 := s21.cells[c]
+		if !ok1 || !ok2 {
+			continue
+		}
+		if _, liveBefore := st.cells[c]; !liveBefore {
+			continue // declared inside the body: dead across iterations
+		}
+		if c.alloc.Comment == "rangeindex" || isDeferStack(deref(c.alloc.Type())) {
+			continue
+		}
+		eqs = append(eqs, eq(a, b))
+	}
+	for _, key := range keys {
+		if strings.HasPrefix(key, "G!visited!") || key == allocKey {
+			continue
+		}
+		if _, ok := w.heapSort[key]; !ok {
+			continue
+		}
+		idxSort, _, isArr := arrayParts(w.heapSort[key])
+		if isArr && idxSort == SInt && !strings.HasPrefix(key, "G!") {
+			// objects that existed before the iterations (fresh temporaries differ harmlessly)
+			r := w.sc.fresh("det.obj", SInt)
+			eqs = append(eqs, implies(le(r, w.hget(st, allocKey)), eq(sel(w.hget(s12, key), r), sel(w.hget(s21, key), r))))
+			continue
+		}
+		eqs = append(eqs, eq(w.hget(s12, key), w.hget(s21, key)))
+	}
+	w.oblige("loop.det", label, and(st.cond, pre), and(eqs...), ls.DetStar, props)
+	w.assumption("determinism of a map range is the commutativity of its body on two distinct keys (pairwise commutativity implies order independence for the locations compared)")
 }
 
 // loopInvariantTerm resolves an SSA value used inside a loop to a term that
